@@ -2102,8 +2102,14 @@ func (p valuePath) enter(rv reflect.Value) (valuePath, bool) {
 // holdsPointer reports whether a non-nil pointer is reachable inside a composite
 // value, or the value contains itself (fmt would never finish printing that)
 func holdsPointer(rv reflect.Value, depth int, path valuePath) bool {
-	if depth > 32 || !rv.IsValid() {
+	if !rv.IsValid() {
 		return false
+	}
+	if depth > maxInspectionDepth {
+		// Too deep to tell: take the careful printer, which cuts deep values short. (fmt
+		// does not, and on a value that contains itself it overflows the stack, which
+		// ends the process.)
+		return true
 	}
 	switch rv.Kind() {
 	case reflect.Ptr:
@@ -2142,7 +2148,11 @@ func holdsPointer(rv reflect.Value, depth int, path valuePath) bool {
 			if holdsPointer(k, depth+1, path) || holdsPointer(rv.MapIndex(k), depth+1, path) {
 				return true
 			}
-			if kf := k; kf.Kind() == reflect.Float64 || kf.Kind() == reflect.Float32 {
+			kf := k
+			if kf.Kind() == reflect.Interface && !kf.IsNil() {
+				kf = kf.Elem()
+			}
+			if kf.Kind() == reflect.Float64 || kf.Kind() == reflect.Float32 {
 				if f := kf.Float(); f != f {
 					return true
 				}
@@ -2184,11 +2194,20 @@ func withoutAddresses(arg interface{}) (value interface{}, printed bool) {
 	return arg, false
 }
 
+// maxInspectionDepth bounds how deep holdsPointer and containsItself look. A value that
+// contains itself is recognised by the path that leads back to it, at whatever depth that
+// happens (it used to go unnoticed below 32 levels and was then handed to fmt); the bound
+// only guards against absurdly deep values, which are treated like self-containing ones.
+const maxInspectionDepth = 2000
+
 // containsItself reports whether walking into a value comes back to a pointer, map or
 // slice that is already being walked
 func containsItself(rv reflect.Value, depth int, path valuePath) bool {
-	if depth > 32 || !rv.IsValid() {
+	if !rv.IsValid() {
 		return false
+	}
+	if depth > maxInspectionDepth {
+		return true
 	}
 	switch rv.Kind() {
 	case reflect.Ptr, reflect.Interface:
